@@ -83,3 +83,137 @@ Theorem C04_bs0_is_bao_layout : forall (HO : hops) (data : bytes HO) (q : ranges
   item_nodes (honest HO data 0 q) = sel_nodes (blen HO data) 0 (sel q (blen HO data)).
 Proof. exact c04_bs0_is_bao_layout. Qed.
 Print Assumptions C04_bs0_is_bao_layout.
+
+(* ======== Gap audit (proofs in Proofs/GapBao.v, Proofs/GapEncStore.v) ========
+   Clause 1 of the property ("at block size 0 the encoding of a single range is bao's slice"), as far as it can be a
+   theorem: the bao crate itself is outside the model, so bao's slice FORMAT is written down from the bao specification
+   (size prefix excluded: the bao-tree 0.15 encoders do not write it) and the honest encoding / the five encoders are
+   proved equal to it.
+     bao_slice HO data start len : the slice of the content `data` for the byte range (start, len):
+       the tree over n > 1 chunks of 1024 bytes has a left subtree over the largest power of two of chunks strictly
+       below n (next_pow2 n / 2) and a right subtree over the rest; the combined encoding is pre-order, a parent node is
+       cv(left) ++ cv(right) (32 bytes each, non-root chaining values), a leaf is the chunk's bytes; the slice keeps the
+       subtrees that contain a chunk of [bao_lo, bao_hi) = the chunks holding a byte of [start, start + max len 1)
+       clipped to the content; a slice starting at or past the end of the content keeps the path to the LAST chunk
+       (an empty content has one empty chunk).  cv (Spec/EncSpec.v) is the BLAKE3 subtree chaining value (C03). *)
+From BaoV Require Import Model.Sync Proofs.EncNonval Proofs.FinalStore Proofs.GapBao Proofs.GapEncStore.
+
+Theorem C04_bao_slice_def : forall (HO : hops) (data : bytes HO) (start len : N),
+  bao_slice HO data start len =
+  bao_rec HO 64 data (bao_lo (blen HO data) start) (bao_hi (blen HO data) start len) 0 (nchunks (blen HO data)).
+Proof. exact bao_slice_def. Qed.
+Print Assumptions C04_bao_slice_def.
+
+Theorem C04_bao_lo_def : forall size start : N,
+  bao_lo size start = if start <? size then start / 1024 else nchunks size - 1.
+Proof. exact bao_lo_def. Qed.
+Print Assumptions C04_bao_lo_def.
+
+Theorem C04_bao_hi_def : forall size start len : N,
+  bao_hi size start len = if start <? size then (N.min (start + N.max len 1) size + 1023) / 1024 else nchunks size.
+Proof. exact bao_hi_def. Qed.
+Print Assumptions C04_bao_hi_def.
+
+(* one step of the recursion over the subtree of chunks [a, b) (fuel 64 suffices for 2^63 bytes; fuel 0 gives []) *)
+Theorem C04_bao_rec_step : forall (HO : hops) (f : nat) (data : bytes HO) (lo hi a b : N),
+  bao_rec HO (S f) data lo hi a b =
+    if (a <? hi) && (lo <? b) then
+      if b - a <=? 1 then chunk_bytes HO data a b
+      else cv HO data a (a + next_pow2 (b - a) / 2) false ++ cv HO data (a + next_pow2 (b - a) / 2) b false
+           ++ bao_rec HO f data lo hi a (a + next_pow2 (b - a) / 2)
+           ++ bao_rec HO f data lo hi (a + next_pow2 (b - a) / 2) b
+    else [].
+Proof. exact bao_rec_eq. Qed.
+Print Assumptions C04_bao_rec_step.
+
+Theorem C04_bao_rec_0 : forall (HO : hops) (data : bytes HO) (lo hi a b : N), bao_rec HO 0 data lo hi a b = [].
+Proof. exact bao_rec_0. Qed.
+Print Assumptions C04_bao_rec_0.
+
+(* for a range of whole chunks [s, e): the slice covers chunks [s, min e nchunks) when chunk s is inside the content,
+   and the last chunk otherwise *)
+Theorem C04_bao_chunks : forall size s e : N, s < e ->
+  bao_lo size (s * 1024) = (if s * 1024 <? size then s else nchunks size - 1) /\
+  bao_hi size (s * 1024) ((e - s) * 1024) = (if s * 1024 <? size then N.min e (nchunks size) else nchunks size).
+Proof. intros size s e H. split; [exact (bao_lo_chunks size s)|exact (bao_hi_chunks size s e H)]. Qed.
+Print Assumptions C04_bao_chunks.
+
+(* the honest encoding of EVERY single range at block size 0 is bao's slice: closed ranges [s, e) of chunks ... *)
+Theorem C04_honest_bs0_is_bao_slice : forall (HO : hops) (data : bytes HO) (s e : N),
+  blen HO data <= 2 ^ 63 -> s < e ->
+  flat HO (honest HO data 0 [s; e]) = bao_slice HO data (s * 1024) ((e - s) * 1024).
+Proof. exact honest_bs0_is_bao_slice_range. Qed.
+Print Assumptions C04_honest_bs0_is_bao_slice.
+
+(* ... and open ranges [s, infinity): any length that reaches the end of the content *)
+Theorem C04_honest_bs0_is_bao_slice_open : forall (HO : hops) (data : bytes HO) (s len : N),
+  blen HO data <= 2 ^ 63 -> blen HO data <= s * 1024 + len ->
+  flat HO (honest HO data 0 [s]) = bao_slice HO data (s * 1024) len.
+Proof. exact honest_bs0_is_bao_slice_open. Qed.
+Print Assumptions C04_honest_bs0_is_bao_slice_open.
+
+(* all five encoders (validating sync / fsm, item stream, non-validating sync / fsm) on a store created by the crate at
+   block size 0 (created_store, Props/C03.v) emit bao's slice *)
+Theorem C04_bs0_encoders_are_bao : forall (HO : hops), hash_ok HO ->
+  forall (data : bytes HO), blen HO data <= 2 ^ 63 ->
+  forall ob : outboard HO, created_store HO data 0 ob ->
+  forall s e : N, s < e -> e < 2 ^ 64 ->
+  let sl := bao_slice HO data (s * 1024) ((e - s) * 1024) in
+  encode_ranges_validated HO data ob [s; e] = (Ok tt, sl) /\
+  encode_ranges_validated_fsm HO data ob [s; e] = (Ok tt, sl) /\
+  (exists its, traverse_ranges_validated HO data ob [s; e] = Some (ESize (blen HO data) :: map EItem its ++ [EDone]) /\
+               concat (map (item_bytes HO) its) = sl) /\
+  encode_ranges HO data ob [s; e] = (Ok tt, sl) /\
+  encode_ranges_fsm HO data ob [s; e] = (Ok tt, sl).
+Proof. exact bs0_encoders_are_bao_range. Qed.
+Print Assumptions C04_bs0_encoders_are_bao.
+
+Theorem C04_bs0_encoders_are_bao_open : forall (HO : hops), hash_ok HO ->
+  forall (data : bytes HO), blen HO data <= 2 ^ 63 ->
+  forall ob : outboard HO, created_store HO data 0 ob ->
+  forall s len : N, s < 2 ^ 64 -> blen HO data <= s * 1024 + len ->
+  let sl := bao_slice HO data (s * 1024) len in
+  encode_ranges_validated HO data ob [s] = (Ok tt, sl) /\
+  encode_ranges_validated_fsm HO data ob [s] = (Ok tt, sl) /\
+  (exists its, traverse_ranges_validated HO data ob [s] = Some (ESize (blen HO data) :: map EItem its ++ [EDone]) /\
+               concat (map (item_bytes HO) its) = sl) /\
+  encode_ranges HO data ob [s] = (Ok tt, sl) /\
+  encode_ranges_fsm HO data ob [s] = (Ok tt, sl).
+Proof. exact bs0_encoders_are_bao_open. Qed.
+Print Assumptions C04_bs0_encoders_are_bao_open.
+
+(* Clause 3 for ALL encoders and without a premise on what the store holds: on a created store the output of the two
+   validating encoders and of the item stream (bytes of its items), and under groups_full (Props/C08.v) of the two
+   non-validating encoders, depends on the query only through the selected chunks *)
+Theorem C04_function_of_selection_created : forall (HO : hops), hash_ok HO ->
+  forall (data : bytes HO) (bs : N), blen HO data <= 2 ^ 63 -> bs <= 10 ->
+  forall ob : outboard HO, created_store HO data bs ob ->
+  forall q1 q2 : ranges, wf_ranges q1 = true -> wf_ranges q2 = true ->
+  (forall c, sel q1 (blen HO data) c = sel q2 (blen HO data) c) ->
+  encode_ranges_validated HO data ob q1 = encode_ranges_validated HO data ob q2 /\
+  encode_ranges_validated_fsm HO data ob q1 = encode_ranges_validated_fsm HO data ob q2 /\
+  (exists its1 its2,
+     traverse_ranges_validated HO data ob q1 = Some (ESize (blen HO data) :: map EItem its1 ++ [EDone]) /\
+     traverse_ranges_validated HO data ob q2 = Some (ESize (blen HO data) :: map EItem its2 ++ [EDone]) /\
+     concat (map (item_bytes HO) its1) = concat (map (item_bytes HO) its2)) /\
+  (groups_full bs q1 (blen HO data) ->
+     encode_ranges HO data ob q1 = encode_ranges HO data ob q2 /\
+     encode_ranges_fsm HO data ob q1 = encode_ranges_fsm HO data ob q2).
+Proof. exact created_function_of_selection. Qed.
+Print Assumptions C04_function_of_selection_created.
+
+(* non-vacuity of the hypotheses above: the term-algebra hash (hash_ok), a blob of 3 chunks, its created store at block
+   size 0, the slice of chunk 1 = two pairs and one chunk = 1152 bytes *)
+From BaoV Require Import Proofs.DecWitness.
+Theorem C04_gap_nonvacuous :
+  exists (HO : hops) (data : bytes HO) (ob : outboard HO) (s e : N),
+    hash_ok HO /\ blen HO data <= 2 ^ 63 /\ nchunks (blen HO data) = 3 /\ created_store HO data 0 ob /\
+    s < e /\ e < 2 ^ 64 /\ wf_ranges [s; e] = true /\
+    length (bao_slice HO data (s * 1024) ((e - s) * 1024)) = 1152%nat.
+Proof.
+  destruct gap_enc_nonvacuous as (A & B & C & D & E & _ & F & _).
+  exists term_hops, nv_data, nv_ob, 1, 2.
+  split; [exact A|]. split; [exact B|]. split; [exact C|]. split; [exact D|].
+  split; [reflexivity|]. split; [reflexivity|]. split; [exact E|exact F].
+Qed.
+Print Assumptions C04_gap_nonvacuous.
